@@ -25,6 +25,23 @@ ROOT = os.path.dirname(os.path.dirname(os.path.abspath(__file__)))
 COQ = os.path.join(ROOT, "coq")
 REPO = os.environ.get("VERIF_REPO", "/repo")
 BIN = os.path.join(ROOT, "bin")
+HARNESS = os.path.join(ROOT, "harness")
+OUT = ROOT          # where work/, evidence/, replays/ go
+SCRATCH = os.environ.get("VERIF_WORK")
+if SCRATCH:
+    # scratch run: private copies of the Coq tree and the harness module, so that a run against
+    # another checkout (VERIF_REPO) does not disturb /verif's own build or other runs
+    OUT = os.path.join(OUT, "work", SCRATCH)
+    os.makedirs(OUT, exist_ok=True)
+    subprocess.run(["rsync", "-a", "--delete", os.path.join(ROOT, "coq") + "/", os.path.join(OUT, "coq") + "/"], check=True)
+    subprocess.run(["rsync", "-a", "--delete", "--exclude", "go.sum", os.path.join(ROOT, "harness") + "/",
+                    os.path.join(OUT, "harness") + "/"], check=True)
+    COQ = os.path.join(OUT, "coq")
+    HARNESS = os.path.join(OUT, "harness")
+    BIN = os.path.join(OUT, "bin")
+    _gm = os.path.join(HARNESS, "go.mod")
+    _t = open(_gm).read().replace("=> /repo", "=> " + os.path.abspath(REPO))
+    open(_gm, "w").write(_t)
 DEFAULT_SEED = 20260930
 GOENV = dict(os.environ, GOFLAGS="-mod=mod", GOPROXY="off", GOSUMDB="off", GOTOOLCHAIN="local",
              CGO_ENABLED="1")
@@ -63,11 +80,11 @@ class Lock:
 def run_gen():
     """Returns dict(changed=[...], errors=[...], matched=[...])."""
     os.makedirs(BIN, exist_ok=True)
-    with Lock(os.path.join(ROOT, "work", "gen.lock")):
+    with Lock(os.path.join(OUT, "work", "gen.lock")):
         rc, out = sh(["go", "build", "-o", os.path.join(BIN, "gen"), "."], cwd=os.path.join(ROOT, "gen"), env=GOENV)
         if rc != 0:
             raise SystemExit("cannot build the guard translator:\n" + out)
-        rep = os.path.join(ROOT, "work", "gen_report.%d.json" % os.getpid())
+        rep = os.path.join(OUT, "work", "gen_report.%d.json" % os.getpid())
         rc, out = sh([os.path.join(BIN, "gen"), "-repo", REPO, "-out", os.path.join(COQ, "theories", "Gen"),
                       "-report", rep])
         try:
@@ -85,8 +102,14 @@ def run_gen():
 # step 2: proofs
 
 def ensure_makefile():
+    """_CoqProject is regenerated from the files present under coq/theories."""
     mk = os.path.join(COQ, "Makefile")
     cp = os.path.join(COQ, "_CoqProject")
+    vs = sorted(os.path.relpath(p, COQ) for p in glob.glob(os.path.join(COQ, "theories", "**", "*.v"), recursive=True)
+                if not os.path.basename(p).startswith("."))
+    want = "-Q theories Moc\n" + "\n".join(vs) + "\n"
+    if not os.path.exists(cp) or open(cp).read() != want:
+        open(cp, "w").write(want)
     if not os.path.exists(mk) or os.path.getmtime(mk) < os.path.getmtime(cp):
         rc, out = sh(["coq_makefile", "-f", "_CoqProject", "-o", "Makefile"], cwd=COQ)
         if rc != 0:
@@ -95,7 +118,7 @@ def ensure_makefile():
 
 def make_targets(targets, jobs=8, timeout=3000):
     """Full .vo build of the given targets.  Returns (ok, output)."""
-    with Lock(os.path.join(ROOT, "work", "coq.lock")):
+    with Lock(os.path.join(OUT, "work", "coq.lock")):
         ensure_makefile()
         rc, out = sh(["timeout", str(timeout), "make", "-j%d" % jobs] + targets, cwd=COQ)
         return rc == 0, out
@@ -195,8 +218,8 @@ def assumptions_of(targets):
 
 def build_harness(binname):
     os.makedirs(BIN, exist_ok=True)
-    hdir = os.path.join(ROOT, "harness")
-    with Lock(os.path.join(ROOT, "work", "go-%s.lock" % binname)):
+    hdir = HARNESS
+    with Lock(os.path.join(OUT, "work", "go-%s.lock" % binname)):
         shutil.copyfile(os.path.join(REPO, "go.sum"), os.path.join(hdir, "go.sum"))
         rc, out = sh(["go", "build", "-tags", "verif", "-o", os.path.join(BIN, binname), "./cmd/" + binname],
                      cwd=hdir, env=GOENV, timeout=1800)
@@ -349,10 +372,10 @@ def match_known(prop, case, known):
 
 def run_check(prop, tier, seed, replay=None):
     t0 = time.time()
-    work = os.path.join(ROOT, "work", prop.id)
+    work = os.path.join(OUT, "work", prop.id)
     os.makedirs(work, exist_ok=True)
-    os.makedirs(os.path.join(ROOT, "evidence"), exist_ok=True)
-    os.makedirs(os.path.join(ROOT, "replays"), exist_ok=True)
+    os.makedirs(os.path.join(OUT, "evidence"), exist_ok=True)
+    os.makedirs(os.path.join(OUT, "replays"), exist_ok=True)
     known = load_known()
     violations = []        # list of dict(kind=..., replay=path, nofail=bool)
     known_lines = []
@@ -444,7 +467,7 @@ def run_check(prop, tier, seed, replay=None):
         body = {"property": prop.id, "kind": kind, "seed": seed, "tier": tier, "case": case}
         body.update(extra or {})
         h = hashlib.sha1(json.dumps(body, sort_keys=True).encode()).hexdigest()[:12]
-        p = os.path.join(ROOT, "replays", "%s-%s.json" % (prop.id, h))
+        p = os.path.join(OUT, "replays", "%s-%s.json" % (prop.id, h))
         json.dump(body, open(p, "w"), indent=1)
         return p
 
@@ -554,7 +577,7 @@ def run_check(prop, tier, seed, replay=None):
         "wall_s": round(time.time() - t0, 2),
         "violations": len(violations),
     }
-    json.dump(ev, open(os.path.join(ROOT, "evidence", "%s.json" % prop.id), "w"), indent=1)
+    json.dump(ev, open(os.path.join(OUT, "evidence", "%s.json" % prop.id), "w"), indent=1)
     log("%s %s: %d cases, %d oracle rejections, %d model differences, proofs %s, %.1fs" % (
         prop.id, tier, len(cases), len(spec_fail), len(model_diff), "ok" if ok_proof else "BROKEN", time.time() - t0))
     return 1 if violations else 0
@@ -565,7 +588,7 @@ def run_coqchk(prop):
     for t in prop.coq_targets:
         if "/Properties/" in t:
             mods.append("Moc." + t[len("theories/"):-3].replace("/", "."))
-    with Lock(os.path.join(ROOT, "work", "coq.lock")):
+    with Lock(os.path.join(OUT, "work", "coq.lock")):
         t0 = time.time()
         rc, out = sh(["timeout", "3000", "coqchk", "-silent", "-o", "-Q", "theories", "Moc"] + mods, cwd=COQ)
     return {"rc": rc, "wall_s": round(time.time() - t0, 1), "output_tail": out[-1500:]}
@@ -579,7 +602,7 @@ def run_replay(prop, path):
         print("replay file names a broken obligation, not an input:")
         print(json.dumps(body.get("what"), indent=1)[:4000])
         return 1
-    work = os.path.join(ROOT, "work", prop.id)
+    work = os.path.join(OUT, "work", prop.id)
     os.makedirs(work, exist_ok=True)
     run_gen()
     make_targets([prop.check_vo])
@@ -599,3 +622,8 @@ def run_replay(prop, path):
     _, m, s = bad[0]
     print("model agrees with implementation: %s\nspecification oracle accepts: %s" % (m, s))
     return 1 if not s else 0
+
+
+if __name__ == "__main__":
+    if sys.argv[1:] == ["makefile"]:
+        ensure_makefile()
